@@ -42,7 +42,17 @@ def run(m):
             b = subprocess.run(["go", "build", "./..."], cwd=dst, env=env, capture_output=True, text=True)
             if b.returncode != 0:
                 return m, "NOBUILD", b.stderr[-400:]
-        out = subprocess.run([TCHK, "-property", m["property"], "-no-evidence"], env=env, capture_output=True, text=True)
+        if m["property"] == "ALL":
+            # behaviour-preserving variant: every check must stay silent (exit 0)
+            bad = []
+            for i in range(1, 21):
+                pid = "C%02d" % i
+                o = subprocess.run([TCHK, "-property", pid, "-tier", "quick", "-no-evidence"], env=env, capture_output=True, text=True)
+                if o.returncode != 0 or "VIOLATION" in o.stdout:
+                    lines = [l for l in (o.stdout + o.stderr).splitlines() if l.startswith("ERROR") or (": rule " in l and not l.startswith("KNOWN"))]
+                    bad.append("%s exit=%d\n      %s" % (pid, o.returncode, "\n      ".join(lines[:6])))
+            return m, "OK" if not bad else "FALSE-ALARM", "\n".join(bad)
+        out = subprocess.run([TCHK, "-property", m["property"], "-tier", "quick", "-no-evidence"], env=env, capture_output=True, text=True)
         text = out.stdout + out.stderr
         want = m.get("rule", "")
         if m.get("expect", "violation") == "silent":
@@ -64,9 +74,25 @@ def main():
     ap.add_argument("-p", default="")
     ap.add_argument("-k", default="")
     ap.add_argument("-j", type=int, default=8)
+    ap.add_argument("--json", action="store_true", help="print one JSON summary instead of lines")
     a = ap.parse_args()
     ms = [m for m in load() if (not a.p or m["property"] == a.p) and a.k in m["name"]]
     bad = 0
+    if a.json:
+        res = {"faults": len(ms), "detected_by_named_rule": 0, "silent_on_unmutated_copy": 0, "not_applicable_to_this_tree": [], "not_detected": []}
+        with cf.ThreadPoolExecutor(max_workers=a.j) as ex:
+            for m, st, info in ex.map(run, ms):
+                if st == "OK" and m.get("expect", "violation") == "silent":
+                    res["silent_on_unmutated_copy"] += 1
+                elif st == "OK":
+                    res["detected_by_named_rule"] += 1
+                elif st in ("STALE", "NOBUILD"):
+                    res["not_applicable_to_this_tree"].append(m["name"])
+                else:
+                    res["not_detected"].append(m["name"] + ": " + st)
+        res["method"] = "each fault is a textual edit applied to a scratch copy of the current tree that must still build; the property's rules are re-run on the copy (static analysis only) and the named rule must report it"
+        print(json.dumps(res))
+        sys.exit(0)
     with cf.ThreadPoolExecutor(max_workers=a.j) as ex:
         for m, st, info in ex.map(run, ms):
             print("%-11s %s %-55s %s" % (st, m["property"], m["name"], m.get("rule", "")))
